@@ -31,6 +31,20 @@ fn main() {
                 };
                 m.insert(n.to_string(), json!({"scheme": if s == 'k' {"secp"} else {"ed"}, "pk": indep::bytes_json(&pk), "nid": indep::bytes_json(&nid), "xy": indep::bytes_json(&xy)}));
             }
+            // small scalars whose public key's x coordinate starts with a byte that looks like a SEC1 tag / boundary
+            let mut special = serde_json::Map::new();
+            for want in [0x00u8, 0x02, 0x03, 0x04, 0x06, 0x07, 0xff] {
+                for k in 1u32..20000 {
+                    let mut a = [0u8; 32];
+                    a[28..].copy_from_slice(&k.to_be_bytes());
+                    let pk = indep::secp_pub(&a);
+                    if pk[1] == want {
+                        special.insert(format!("{:02x}", want), json!(indep::hex(&a)));
+                        break;
+                    }
+                }
+            }
+            m.insert("special_x".to_string(), Value::Object(special));
             println!("{}", Value::Object(m));
         }
         "mk" => {
